@@ -1,0 +1,17 @@
+//go:build verif
+
+// Contracts for cache.go, checked by /verif (govc). Comment-only file.
+
+package cache
+
+// The mangled action-cache key: lower-case hex SHA-256 of the bytes of the key followed by
+// the bytes of the instance name (C15). That distinct (key, instance) pairs give distinct
+// results is the collision resistance of SHA-256 and is not proved.
+//@ pred mangled(key, instance) = hexsum(sapp(sapp(sempty(), strbytes(key), 0, len(key)), strbytes(instance), 0, len(instance)))
+
+//@ func TransformActionCacheKey(key, instance string, logger Logger) string
+//@   serves C15
+//@   requires logger != nil
+//@   modifies hStream, hN
+//@   ensures[C15] identity: instance == "" ==> result == key
+//@   ensures[C15] mangled: instance != "" ==> result == mangled(key, instance)
